@@ -28,9 +28,9 @@ RULE = ('cases: seeded histories of 40 ops (add / move / move_to / remove / move
         'by (world kind, extents, wrap, op-kind trace).')
 ASSUMPTIONS = ['only axes of positive extent are claimed (zero-extent axes are read back but not judged)',
                'extents are 0 or >= 1', 'float landing is exact on multiples of 1/8 below 2^40; elsewhere within 4*(ulp(|old|+|delta|)+ulp(extent)): float % rounds once more when it folds a negative remainder']
-FLOORS = {'quick': {'operations_in_the_other_world': 3968, 'calls_with_numpy_scalars': 2849, 'wrap_mode_switched_mid_history': 795, 'placements_rejected_as_duplicate': 789, 'moves_wrap': 4000, 'moves_clamp': 4000, 'multi_lap_wraps': 800, 'saturated_low': 500, 'saturated_high': 500,
+FLOORS = {'quick': {'calls_refused_for_a_wrong_typed_coordinate': 424, 'operations_in_the_other_world': 3968, 'calls_with_numpy_scalars': 2849, 'wrap_mode_switched_mid_history': 795, 'placements_rejected_as_duplicate': 789, 'moves_wrap': 4000, 'moves_clamp': 3959, 'multi_lap_wraps': 800, 'saturated_low': 500, 'saturated_high': 500,
                     'move_to_accepted': 2000, 'move_to_rejected': 2000, 'boundary_landings': 1500, 'removals': 1000, 'deprecated_alias_calls': 300, 'big_histories': 6, 'big_history_ops': 3000, 'wild_ops': 500,
-                    'exact_ops': 7310, 'contract:SpaceWorld.containment': 30000, 'world_space': 200, 'world_discrete': 200, 'world_line': 80, 'world_grid': 80,
+                    'exact_ops': 6725, 'contract:SpaceWorld.containment': 30000, 'world_space': 200, 'world_discrete': 200, 'world_line': 80, 'world_grid': 80,
                     'reach:Environments.SpaceWorld.move': 8000, 'reach:Environments.SpaceWorld.move_to': 4000},
           'thorough': {'moves_wrap': 300000, 'moves_clamp': 300000, 'move_to_rejected': 150000}}
 EXHAUSTIVE = {}
@@ -80,6 +80,10 @@ def case_history(ctx, case):
     off = 1 if grid else 0
     wild = (not grid) and rng.random() < 0.25
     agents = [core.Agent(f'a{j}', model) for j in range(rng.randint(1, 5))]
+    Mark = type('Mark', (core.Component,), {'__slots__': ()})
+    for a_ in agents:
+        if rng.random() < 0.5:
+            a_.add_component(Mark(a_, model))         # agents usually carry components of their own
     ref = {}           # agent id -> [Fraction|None per axis] for residents (None on unclaimed axes)
     # a second world of another model is alive all the time and is populated with agents of the SAME ids, elsewhere: the two worlds have
     # nothing to do with each other
@@ -271,6 +275,36 @@ def case_history(ctx, case):
             if twin is not a and P in twin.components:
                 raise CaseViolation(f'a rejected newcomer (id {a.id!r} taken) was left carrying a position {twin[P].xyz()}', trace=trace[-10:])
             verify(None, f'after the rejected second placement of {a.id} at {tuple(pos)}')
+        elif x < 0.10 and len(pos_axes) >= 2:
+            # a call with a wrong-typed coordinate on a LATER axis (None / a string / a list): the library refuses it part-way.  A refused
+            # absolute move changes nothing; after a refused relative move every coordinate is still inside the world
+            from vlib import faults
+            kbad = rng.choice(pos_axes[1:])
+            bad = rng.choice([None, 'x'])          # (not a list: numpy-typed stored coordinates would broadcast with it)
+            if rng.random() < 0.5:
+                args = [num(k, rng.choice(['far', 'small'])) for k in range(3)]
+                args[kbad] = bad
+                trace.append(('move-badtype', a.id, [repr(v) for v in args]))
+                _, err = faults.attempt(env.move, a, *args)
+                got = actual(a)
+                for k in pos_axes:
+                    if not (0 <= got[k] <= hi(k)):
+                        raise CaseViolation(f'after a relative move that was refused part-way ({type(err).__name__}) agent {a.id} axis {"xyz"[k]} = {got[k]!r} '
+                                            f'lies outside [0, {hi(k)}]', world=(kind, ext, wrap), trace=trace[-6:])
+                ref[a.id] = [F(got[k]) if k in pos_axes else None for k in range(3)]
+            else:
+                args = [num(k, 'in') for k in range(3)]
+                args[kbad] = bad
+                before_ = actual(a)
+                trace.append(('move_to-badtype', a.id, [repr(v) for v in args]))
+                _, err = faults.attempt(env.move_to, a, *args)
+                if err is None:
+                    raise CaseViolation(f'move_to with {bad!r} as a coordinate was accepted', world=(kind, ext, wrap))
+                if actual(a) != before_:
+                    raise CaseViolation(f'a refused absolute move ({type(err).__name__}) changed the position from {before_} to {actual(a)}',
+                                        world=(kind, ext, wrap), trace=trace[-6:])
+            ctx.count('calls_refused_for_a_wrong_typed_coordinate')
+            verify(a, 'after a call with a wrong-typed coordinate')
         elif x < 0.45:
             d = [num(k, rng.choice(['small', 'small', 'far', 'edge'])) if rng.random() < 0.8 else 0 for k in range(3)]
             trace.append(('move', a.id, d))
